@@ -303,8 +303,9 @@ func (e *endpoint) Write(p tcpip.Payload, opts tcpip.WriteOptions) (uintptr, <-c
 	}
 
 	// 如果报文长度超过65535，将会超过UDP最大的长度表示，这是不允许的。
-	if p.Size() > math.MaxUint16 {
-		// Payload can't possibly fit in a packet.
+	if p.Size() > math.MaxUint16-header.UDPMinimumSize {
+		// Payload can't possibly fit in a packet: the 16-bit UDP length
+		// field counts the 8-byte header as well.
 		return 0, nil, tcpip.ErrMessageTooLong
 	}
 
